@@ -26,7 +26,7 @@ theorem ctxOf_pp (l : Line) : (ctxOf l).pp = BresenhamParameters.new (paramLine 
   rw [params_new]; rfl
 
 theorem ctxOf_perp (l : Line) : (ctxOf l).perp = BresenhamParameters.new (paramLine l).perpendicular := by
-  rw [params_new, dmaj_perpendicular, dmin_perpendicular]; rfl
+  rw [params_new, dmaj_perpendicular, dmin_perpendicular_bb]; rfl
 
 theorem ctxOf_valid (l : Line) : (ctxOf l).Valid := by
   refine ⟨dmaj_paramLine_pos l, dmin_nonneg _, dmin_le_dmaj _, axisPair_params _, axisPair_params _, ?_⟩
